@@ -193,7 +193,10 @@ pub mod probe {
     pub const BIG_VALUE: usize = 27;
     pub const FWD_JUMP: usize = 28;
     pub const MULTI_LIMB: usize = 29;
-    pub const N: usize = 30;
+    pub const JUMP_FROM_FIRST: usize = 30;
+    pub const RETURN_TO_FIRST: usize = 31;
+    pub const RETURN_TO_SELF: usize = 32;
+    pub const N: usize = 33;
     pub const NAMES: [&str; N] = [
         "jump_taken",
         "heart_return_taken",
@@ -225,6 +228,9 @@ pub mod probe {
         "value_over_64_bits",
         "forward_jump_taken",
         "value_over_32_bits",
+        "jump_from_first_command",
+        "heart_return_to_first_command",
+        "heart_return_onto_itself",
     ];
 }
 
@@ -487,6 +493,12 @@ impl Machine {
         if leaf == 13 {
             if let Some(l) = self.last {
                 self.probes[probe::HEART_RETURN] += 1;
+                if l == 0 {
+                    self.probes[probe::RETURN_TO_FIRST] += 1;
+                }
+                if l == pc {
+                    self.probes[probe::RETURN_TO_SELF] += 1;
+                }
                 next = l;
             }
         } else if leaf != 0 {
@@ -495,6 +507,9 @@ impl Machine {
                     self.probes[probe::JUMP] += 1;
                     if t > pc {
                         self.probes[probe::FWD_JUMP] += 1;
+                    }
+                    if pc == 0 {
+                        self.probes[probe::JUMP_FROM_FIRST] += 1;
                     }
                     self.last = Some(pc);
                     next = t;
